@@ -92,6 +92,18 @@ func New(id, tier, level string) *Run {
 		}
 	}
 	r.deadline = r.start.Add(budget)
+	// watchdog: every loop of the harness consults Expired(), so a process that is still running long after its
+	// internal deadline is stuck inside the code under test (or inside a sub-process of its own). Violations
+	// recorded so far are then reported (exit 1); without any there is no verdict (instrument error, exit 2).
+	time.AfterFunc(2*budget+3*time.Minute, func() {
+		if r.Failed() {
+			fmt.Fprintf(os.Stderr, "watchdog: %s %s still running %v after its internal deadline; reporting what was found\n", id, tier, budget+3*time.Minute)
+			r.cut.Store(true)
+			r.Finish()
+		}
+		fmt.Fprintf(os.Stderr, "instrument error: %s %s did not finish within twice its budget plus three minutes and recorded no violation\n", id, tier)
+		os.Exit(2)
+	})
 	if data, err := os.ReadFile(filepath.Join(Root, "known_findings.json")); err == nil {
 		if err := json.Unmarshal(data, &r.knownFile); err != nil {
 			fmt.Fprintf(os.Stderr, "instrument error: known_findings.json: %v\n", err)
